@@ -320,6 +320,9 @@ func (p *PALS) Align(complement bool) (dp.Hits, error) {
 	)
 	aligner.Costs = &p.Costs
 	hits := aligner.AlignTraps(p.trapezoids)
+	if p.selfCompare && !complement {
+		hits = dropSelfMatches(hits)
+	}
 	hitCoverageA, hitCoverageB, err := hits.Sum()
 	if err != nil {
 		return nil, err
@@ -327,6 +330,21 @@ func (p *PALS) Align(complement bool) (dp.Hits, error) {
 	p.notifyf("Aligned %d hits covering %d x %d", len(hits), hitCoverageA, hitCoverageB)
 
 	return hits, nil
+}
+
+// dropSelfMatches removes alignments of a region with itself from the hits of a forward
+// strand self comparison. The filter and the merger exclude the main diagonal, but a
+// trapezoid that starts within MaxIGap of it lets the banded extension reach the main
+// diagonal, where it aligns the sequence with itself.
+func dropSelfMatches(hits dp.Hits) dp.Hits {
+	kept := hits[:0]
+	for _, h := range hits {
+		if h.Abpos == h.Bbpos && h.Aepos == h.Bepos {
+			continue
+		}
+		kept = append(kept, h)
+	}
+	return kept
 }
 
 // Trapezoids returns the filter trapezoids identified during a call to Align.
@@ -358,6 +376,9 @@ func (p *PALS) AlignFrom(traps filter.Trapezoids, complement bool) (dp.Hits, err
 	)
 	aligner.Costs = &p.Costs
 	hits := aligner.AlignTraps(traps)
+	if p.selfCompare && !complement {
+		hits = dropSelfMatches(hits)
+	}
 	hitCoverageA, hitCoverageB, err := hits.Sum()
 	if err != nil {
 		return nil, err
